@@ -448,6 +448,9 @@ def run(chk: Check) -> None:
             f"lifecycle: history violates the lifecycle laws (event #{pos}: {failing}) -- {t['meta']} events={[(e['ev'], e['a'], e['out'], e['serving'], e['listening']) for e in t['events']]}",
             {"kind": "lifecycle_history", "meta": t["meta"], "events": t["events"]},
         )
+    from . import c18_portal
+
+    c18_portal.run(chk)
     chk.assumptions += [
         "standalone schedules use real threads and short real sleeps to land inside the intended windows (0.15 s into a 0.4 s service_init); a watchdog bounds every join",
         "the asynchronous server_close() refusing loudly with BusyResourceError during the set-up of serve_forever() is accepted (the caller is told); the standalone "
